@@ -38,6 +38,7 @@ type dlScript struct {
 	Part   string     `json:"part"`
 	Script []dlAnswer `json:"script"`
 	MaxReq int        `json:"maxreq"`
+	Final0 string     `json:"final0"` // "stale": a file of the object's size with other bytes sits at the final place
 	// custom adapter: the messages the transfer agent answers a download request with
 	Adapter string     `json:"adapter"`
 	Msgs    []agentMsg `json:"msgs"`
@@ -272,6 +273,15 @@ func runDL(sc *dlScript, base string) dlResult {
 	case "longer":
 		os.WriteFile(partFile, append(append([]byte{}, content...), make([]byte, cell)...), 0644)
 	}
+	if sc.Final0 == "stale" {
+		dstp, _ := f.ObjectPath(oid)
+		os.MkdirAll(filepath.Dir(dstp), 0755)
+		stale := make([]byte, len(content))
+		for i := range stale {
+			stale[i] = 0x55
+		}
+		os.WriteFile(dstp, stale, 0444)
+	}
 	t0 := time.Now()
 	m := tq.NewManifest(f, c, "download", "origin")
 	q := tq.NewTransferQueue(tq.Download, m, "origin")
@@ -290,6 +300,8 @@ func runDL(sc *dlScript, base string) dlResult {
 		s := sha256.Sum256(b)
 		if hex.EncodeToString(s[:]) == oid {
 			res.Final = "valid"
+		} else if sc.Final0 == "stale" && len(b) == len(content) && b[0] == 0x55 && b[len(b)-1] == 0x55 {
+			res.Final = "stale" // the file that was there before, untouched
 		} else {
 			res.Final = "corrupt"
 		}
